@@ -117,6 +117,15 @@ def oracle(line: str, obs: Obs):
                     ce_seen.setdefault(c, 0) if d["dir"] == "R" else None
                     established = now
                     state[c + "@t"] = established
+                # … and not before: a connection waiting for its CER/CEA is only given up by the timer once the timeout has passed
+                if simple_clock and t[0] == "adv" and state.get(c) == "CONNECTED" and d["state"] == "CLOSED" and c not in succeeded:
+                    pname = d.get("name") if d.get("name") != "-" else None
+                    p = peers.get(pname)
+                    key = "cer" if d["dir"] == "R" else "cea"
+                    tmo = (p or {}).get(key) or cfg[key]
+                    if now - state[c + "@t"] <= tmo:
+                        fails.append({"what": f"connection given up {now - state[c + '@t']} s after it was established although its "
+                                              f"capabilities-exchange timeout is {tmo} s", "event": ev, "real": l})
                 state[c] = d["state"]
                 direction[c] = d["dir"]
                 if d["state"] in ("READY", "WAITDWA"):
@@ -150,10 +159,23 @@ def scenarios(rng: random.Random, tier: str) -> list[str]:
         out.append(inbound + " | start | acc | " + " | ".join(evs))
         if tier != "quick" or rng.random() < 0.5:
             out.append(nodegen.CONFIGS["out"] + " | start ok,inp | " + " | ".join(evs) + " | adv 3")
+    # timeout grid: node-level CER/CEA timeouts other than the defaults, peers without overrides
+    for cea_t, cer_t in ((1, 2), (2, 1), (9, 7), (3, 3)):
+        cfg = (f"NODE host={nodegen.HOST};realm={nodegen.REALM};cea={cea_t};cer={cer_t};idle=60;"
+               f"peer:peer1.x,{nodegen.REALM},1,0,50,1,0,-,-,-,-;peer:peer2.x,{nodegen.REALM},0,0,30,1,0,-,-,-,-;app:4,1,0,b,0,0+1,-")
+        for k in sorted({max(1, cea_t - 1), cea_t, cea_t + 1, cea_t + 2}):
+            out.append(cfg + f" | start ok | adv {k} | tick")
+            out.append(cfg + f" | start ok | adv {k} | rx 0 " + nodegen.cea(2001, "peer1.x", 2001, 9) + " | tick")
+            out.append(cfg + f" | start inp | conn 0 ok | adv {k} | tick")
+        for k in sorted({max(1, cer_t - 1), cer_t, cer_t + 1, cer_t + 2}):
+            out.append(cfg + f" | start fail | acc | adv {k} | tick")
+            out.append(cfg + f" | start fail | acc | adv {k} | rx 1 " + nodegen.cer("peer2.x", "4", 71, 72) + " | tick")
     # random deeper
     for i in range(150 if tier == "quick" else 3000):
         cfgn = rng.choice(["basic", "two", "out", "noapp"])
         out.append(nodegen.random_scenario(rng, cfgn, 6 if tier == "quick" else 10, unique=True, handshake=0.3))
+    # every scenario also under the alternative schedule (writer and I/O loop run as soon as a message is queued)
+    out += [nodecheck.eager(l) for l in out[::1 if tier != "quick" else 2]]
     return out
 
 
